@@ -199,51 +199,70 @@ theorem joinWith_append (c : UInt8) (l1 l2 : List Bytes) (h1 : l1 ≠ []) (h2 : 
       simp only [List.cons_append, joinWith] at this ⊢
       rw [this]; simp
 
-/-! ## filepath.Clean on safe components -/
+/-! ## filepath.Clean on clean components -/
 
-theorem cleanStep_safe (rooted : Bool) (st : List Bytes) (c : Bytes) (h : SafeComp c) :
+/-- what `filepath.Clean` leaves alone: a component that is non-empty, not `.`/`..` and has no `/`.
+    (Every directory entry name returned by the OS is one; every `SafeComp` is one.) -/
+def CleanComp (s : Bytes) : Prop := s ≠ [] ∧ s ≠ sDot ∧ s ≠ sDotDot ∧ ∀ c ∈ s, c ≠ cSlash
+
+theorem SafeComp.toClean {s : Bytes} (h : SafeComp s) : CleanComp s :=
+  ⟨h.1, h.2.1, h.2.2.1, h.noSlash⟩
+
+theorem cleanStep_clean (rooted : Bool) (st : List Bytes) (c : Bytes) (h : CleanComp c) :
     cleanStep rooted st c = c :: st := by
-  obtain ⟨h1, h2, h3, _, _⟩ := h
+  obtain ⟨h1, h2, h3, _⟩ := h
   simp [cleanStep, h1, h2, h3]
 
-theorem foldl_cleanStep_safe (rooted : Bool) (comps st : List Bytes) (h : ∀ c ∈ comps, SafeComp c) :
+theorem foldl_cleanStep_clean (rooted : Bool) (comps st : List Bytes) (h : ∀ c ∈ comps, CleanComp c) :
     comps.foldl (cleanStep rooted) st = comps.reverse ++ st := by
   induction comps generalizing st with
   | nil => rfl
   | cons c cs ih =>
-    simp only [List.foldl_cons, cleanStep_safe rooted st c (h c List.mem_cons_self)]
+    simp only [List.foldl_cons, cleanStep_clean rooted st c (h c List.mem_cons_self)]
     rw [ih _ (fun d hd => h d (List.mem_cons_of_mem _ hd))]
     simp
+
+theorem foldl_cleanStep_safe (rooted : Bool) (comps st : List Bytes) (h : ∀ c ∈ comps, SafeComp c) :
+    comps.foldl (cleanStep rooted) st = comps.reverse ++ st :=
+  foldl_cleanStep_clean rooted comps st (fun c hc => (h c hc).toClean)
 
 /-- an absolute path given by its components -/
 def absPath (comps : List Bytes) : Bytes := cSlash :: joinWith cSlash comps
 
-theorem splitOn_absPath (comps : List Bytes) (hne : comps ≠ []) (h : ∀ c ∈ comps, SafeComp c) :
+theorem splitOn_absPath' (comps : List Bytes) (hne : comps ≠ []) (h : ∀ c ∈ comps, CleanComp c) :
     splitOn cSlash (absPath comps) = [] :: comps := by
   have := splitOn_append cSlash [] (joinWith cSlash comps) (by simp)
   simp only [List.nil_append] at this
-  rw [absPath, this, splitOn_joinWith cSlash comps hne (fun p hp => (h p hp).noSlash)]
+  rw [absPath, this, splitOn_joinWith cSlash comps hne (fun p hp => (h p hp).2.2.2)]
 
-/-- `filepath.Clean` is the identity on an absolute path whose components are all safe -/
-theorem clean_absPath (comps : List Bytes) (hne : comps ≠ []) (h : ∀ c ∈ comps, SafeComp c) :
+theorem splitOn_absPath (comps : List Bytes) (hne : comps ≠ []) (h : ∀ c ∈ comps, SafeComp c) :
+    splitOn cSlash (absPath comps) = [] :: comps :=
+  splitOn_absPath' comps hne (fun c hc => (h c hc).toClean)
+
+/-- `filepath.Clean` is the identity on an absolute path whose components are all clean -/
+theorem clean_absPath' (comps : List Bytes) (hne : comps ≠ []) (h : ∀ c ∈ comps, CleanComp c) :
     clean (absPath comps) = absPath comps := by
-  have hs := splitOn_absPath comps hne h
+  have hs := splitOn_absPath' comps hne h
   unfold clean
   have h1 : (absPath comps).isEmpty = false := by simp [absPath]
   have h2 : ((absPath comps).head? == some cSlash) = true := by simp [absPath]
   simp only [h1, h2, hs, List.foldl_cons]
   have h3 : cleanStep true [] [] = [] := by simp [cleanStep]
-  rw [h3, foldl_cleanStep_safe true comps [] h]
+  rw [h3, foldl_cleanStep_clean true comps [] h]
   simp [absPath]
 
-/-- `filepath.Clean` is the identity on a relative path whose components are all safe -/
-theorem clean_relPath (comps : List Bytes) (hne : comps ≠ []) (h : ∀ c ∈ comps, SafeComp c) :
+theorem clean_absPath (comps : List Bytes) (hne : comps ≠ []) (h : ∀ c ∈ comps, SafeComp c) :
+    clean (absPath comps) = absPath comps :=
+  clean_absPath' comps hne (fun c hc => (h c hc).toClean)
+
+/-- `filepath.Clean` is the identity on a relative path whose components are all clean -/
+theorem clean_relPath' (comps : List Bytes) (hne : comps ≠ []) (h : ∀ c ∈ comps, CleanComp c) :
     clean (joinWith cSlash comps) = joinWith cSlash comps := by
-  have hs := splitOn_joinWith cSlash comps hne (fun p hp => (h p hp).noSlash)
+  have hs := splitOn_joinWith cSlash comps hne (fun p hp => (h p hp).2.2.2)
   obtain ⟨a, rest, rfl⟩ := List.exists_cons_of_ne_nil hne
   have ha := h a List.mem_cons_self
   obtain ⟨x, xs, rfl⟩ := List.exists_cons_of_ne_nil ha.1
-  have hx : x ≠ cSlash := ha.noSlash x List.mem_cons_self
+  have hx : x ≠ cSlash := ha.2.2.2 x List.mem_cons_self
   have hne' : joinWith cSlash ((x :: xs) :: rest) ≠ [] := by
     cases rest <;> simp [joinWith]
   have hhead : (joinWith cSlash ((x :: xs) :: rest)).head? = some x := by
@@ -254,7 +273,29 @@ theorem clean_relPath (comps : List Bytes) (hne : comps ≠ []) (h : ∀ c ∈ c
   have h2 : ((joinWith cSlash ((x :: xs) :: rest)).head? == some cSlash) = false := by
     rw [hhead]; simpa using hx
   simp only [h1, h2, hs]
-  rw [foldl_cleanStep_safe false _ [] h]
+  rw [foldl_cleanStep_clean false _ [] h]
   simp
+
+theorem clean_relPath (comps : List Bytes) (hne : comps ≠ []) (h : ∀ c ∈ comps, SafeComp c) :
+    clean (joinWith cSlash comps) = joinWith cSlash comps :=
+  clean_relPath' comps hne (fun c hc => (h c hc).toClean)
+
+/-- `filepath.Join(root, rel)` for an absolute root of clean components `rc` and a relative path of clean
+    components: exactly `rc ++ comps`, nothing cleaned away. -/
+theorem pathJoin_abs_rel (rc : List Bytes) (hrc : rc ≠ []) (hs : ∀ c ∈ rc, CleanComp c)
+    (comps : List Bytes) (hne : comps ≠ []) (hc : ∀ c ∈ comps, CleanComp c) :
+    pathJoin [absPath rc, joinWith cSlash comps] = absPath (rc ++ comps) := by
+  have hroot : (absPath rc).isEmpty = false := by simp [absPath]
+  have hj : joinWith cSlash [absPath rc, joinWith cSlash comps] = absPath (rc ++ comps) := by
+    simp only [absPath, joinWith_append cSlash rc comps hrc hne, joinWith]
+    simp
+  unfold pathJoin
+  simp only [List.dropWhile, hroot]
+  rw [hj]
+  apply clean_absPath' _ (by simp [hrc])
+  intro c hcm
+  rcases List.mem_append.mp hcm with h | h
+  · exact hs c h
+  · exact hc c h
 
 end OllamaVerif.Names
